@@ -261,6 +261,12 @@ pub fn reference(delivered: &[Wire], base: &Content) -> RefVerdict {
                 let (t, ttl) = (rr.rtype(), rr.ttl().as_secs());
                 rr.into_record::<AllRecordData<_, domain::base::ParsedName<_>>>().ok().flatten().map(|r| (owner, t, ttl, format!("{}", r.data())))
             });
+            // (A record that is not of the zone has no place in its
+            // transfer: as good as one that cannot be read.)
+            let rec = rec.filter(|r| {
+                let o = r.0.to_ascii_lowercase();
+                o == APEX || o.ends_with(&format!(".{}", APEX))
+            });
             match rec {
                 Some(r) => recs.push(r),
                 None => {
@@ -374,8 +380,25 @@ fn inject(msgs: &[Wire]) -> (Vec<Wire>, &'static str) {
     }
     let n = out.len();
     let i = sim::draw("fault.msg_index", n as u64) as usize;
-    let kind = match sim::draw("fault.kind", 14) {
+    let kind = match sim::draw("fault.kind", 15) {
         0..=3 => "none",
+        14 => {
+            // Message i is replaced by a message out of another zone's
+            // transfer with the same ID (two transfers mixed up on one
+            // connection, a confused primary). Messages behind the first
+            // may leave the question out, so only the records' owners tell.
+            let id = u16::from_be_bytes([out[i].bytes[0], out[i].bytes[1]]);
+            let mut mb = MessageBuilder::new_vec();
+            mb.header_mut().set_id(id);
+            mb.header_mut().set_qr(true);
+            mb.header_mut().set_aa(true);
+            let mut ab = mb.question().answer();
+            for (k, host) in ["www", "mail", "ftp"].iter().enumerate() {
+                ab.push((stored_name(&format!("{}.elsewhere.", host)), domain::base::iana::Class::IN, domain::base::Ttl::from_secs(300), domain::rdata::A::new(std::net::Ipv4Addr::new(198, 51, 100, k as u8 + 1)))).unwrap();
+            }
+            out[i].bytes = ab.finish();
+            "fault.msg_from_another_zones_transfer"
+        }
         4 => {
             out.remove(i);
             "fault.msg_drop"
@@ -825,6 +848,11 @@ async fn run(_tier: Tier) {
             return;
         }
     };
+    // A view of the secondary taken before the transfer and kept to the
+    // end of the run (what an outgoing transfer or a slow query holds): it
+    // shows the version from before the transfer, whatever is committed,
+    // rolled back or updated afterwards.
+    let _held = HeldView::new(&secondary);
     let final_soa = soa_spec(serial_of(&contents[j]).unwrap());
     let mut stream: Vec<RecSpec> = vec![final_soa.clone()];
     // Complete versions a reader may see during the transfer.
@@ -1199,6 +1227,33 @@ async fn followup(secondary: &Zone, base: &Content, fault: &str) {
             "failed-transfer-surfaces-in-later-update".to_string(),
             format!("after a transfer that did not finish (fault {}), a later unrelated update published more than itself: unexpected {:?}; missing {:?}", fault, extra, missing),
         );
+    }
+}
+
+struct HeldView {
+    reader: Box<dyn domain::zonetree::ReadableZone>,
+    before: Vec<(String, Rtype, u32, Vec<String>)>,
+}
+
+impl HeldView {
+    fn new(zone: &Zone) -> Self {
+        let reader = zone.read();
+        let before = walk_str(&walk_zone(reader.as_ref()));
+        HeldView { reader, before }
+    }
+}
+
+impl Drop for HeldView {
+    fn drop(&mut self) {
+        if sim::stopped() || std::thread::panicking() {
+            return;
+        }
+        let now = walk_str(&walk_zone(self.reader.as_ref()));
+        if now != self.before {
+            let extra: Vec<_> = now.iter().filter(|x| !self.before.contains(x)).collect();
+            let missing: Vec<_> = self.before.iter().filter(|x| !now.contains(x)).collect();
+            sim::violation(P, "atomicity", "view-held-across-the-transfer-changed".to_string(), format!("a view of the secondary taken before the transfer no longer shows its version at the end of the run: unexpected {:?}; missing {:?}", extra, missing));
+        }
     }
 }
 
